@@ -114,7 +114,8 @@ def main(pid):
             miss = sorted(set(o["matching"]) - set(o["selected"]))
             vd.violation(cl, {"text": o["text"], "sublist": o["sub"], "matching_not_selected": miss[:10],
                               "ref": o["ref"][:30], "aho": o["aho"][:30]},
-                         {"clause": cl, "sublist": o["sub"]})
+                         {"clause": cl, "sublist": o["sub"]},
+                         judge=vlib.J("Trace_AhoFilter", "Trace_AhoFilter.cfg", o), rerun=vlib.R("drv_aho", "run_diff", items[ix]))
     ev.sample({"text": obs[0]["text"], "matching": obs[0]["matching"][:8], "selected_count": len(obs[0]["selected"])})
     ev.sample({"witness_words": [w for _, w in wit[:5]]})
     nfa_file.unlink(missing_ok=True)
